@@ -13,7 +13,10 @@ CONSTANT CorpusFile      \* ndjson: {"id": n, "src": [bytes]}
 Corpus == ndJsonDeserialize(CorpusFile)
 
 Fillers == << <<32>>, <<10>>, <<9, 9>>, <<45, 45, 32, 99, 10>>, <<45, 45, 40, 99, 41, 45, 45>>,
-              <<32, 45, 45, 40, 99, 10, 41, 45, 45, 32>> >>
+              <<32, 45, 45, 40, 99, 10, 41, 45, 45, 32>>,
+              \* several comments in one gap
+              <<45, 45, 40, 99, 41, 45, 45, 32, 45, 45, 40, 100, 41, 45, 45>>, <<45, 45, 32, 99, 10, 45, 45, 32, 100, 10>>,
+              <<45, 45, 32, 99, 10, 45, 45, 40, 100, 41, 45, 45, 10>> >>
 
 VARIABLES pi, src, edit, ot
 lvars == <<pi, src, edit, ot>>
